@@ -318,7 +318,41 @@ def rule_consume_c16(ctx):
     rule_consume(ctx, "C16.CONSUME")
 
 
+def rule_hb_ext(ctx):
+    """HB-EXT: what the heartbeat extension negotiation means on each side, over all modes: unsolicited
+    or invalid extensions abort, the permission to send is recorded only when the peer allowed it
+    and the application installed a callback."""
+    from .common import spec_rows
+    R = "C16.HB-EXT"
+    M = {"HeartbeatMode.PEER_ALLOWED_TO_SEND": [1], "HeartbeatMode.PEER_NOT_ALLOWED_TO_SEND": [2]}
+    base = dict(M)
+    base.update({"heartbeat_ext": [True], "heartbeat_ext.mode": [0, 1, 2, 3],
+                 "settings.heartbeat_response_callback": [None, "cb"]})
+    cl = dict(base)
+    cl["settings.use_heartbeat_extension"] = [True, False]
+    eff = {"self.heartbeat_can_send = True":
+           lambda e: e["heartbeat_ext.mode"] == 1 and bool(e["settings.heartbeat_response_callback"]),
+           "self.heartbeat_supported = True": lambda e: True}
+    for fn in ("_clientGetServerHello", "_clientTLS13Handshake"):
+        spec_rows(ctx, R, TLSCONN + fn, [
+            dict(what="server's heartbeat extension: solicited and of a valid mode", dom=cl,
+                 abort=lambda e: not e["settings.use_heartbeat_extension"]
+                 or (bool(e["settings.heartbeat_response_callback"]) and e["heartbeat_ext.mode"] not in (1, 2)),
+                 effects=eff,
+                 msg="a heartbeat extension the client did not offer, or one with an invalid mode, must abort; "
+                     "sending is enabled only for PEER_ALLOWED_TO_SEND with a callback installed")])
+    spec_rows(ctx, R, TLSCONN + "_serverGetClientHello", [
+        dict(what="client's heartbeat extension has a valid mode", dom=base,
+             abort=lambda e: e["heartbeat_ext.mode"] not in (1, 2),
+             effects={"self.heartbeat_response_callback = settings.heartbeat_response_callback":
+                      lambda e: e["heartbeat_ext.mode"] == 1 and bool(e["settings.heartbeat_response_callback"]),
+                      "self.heartbeat_can_receive = True": lambda e: True},
+             msg="a heartbeat extension with an invalid mode must abort; sending is enabled only for "
+                 "PEER_ALLOWED_TO_SEND with a callback installed")])
+
+
 RULES = [
+    ("C16.HB-EXT", "quick", rule_hb_ext),
     ("C16.KU", "quick", rule_ku),
     ("C16.HB", "quick", rule_hb),
     ("C16.PHA", "quick", rule_pha),
